@@ -248,6 +248,86 @@ def forwarded : List SOp → List SOp → Option (List Int)
     | some v => (forwarded r (.fetch x :: pre)).map (v :: ·)
     | none => none
 
+/-! ## which symbols a block may forward (`desymref.py: get_symbols / get_nested_symbols`) -/
+
+/-- The operations of a block, for symbol bookkeeping only: `sym s rest` = a symref operation
+(declare / fetch / update) on `s`, then the rest of the block; `op body rest` = an operation holding
+regions whose operations (all regions, all blocks, in order) are `body`, then the rest of the block.
+Operations without regions and without symbol are left out. -/
+inductive SymTree where
+  | leaf
+  | sym (s : Nat) (rest : SymTree)
+  | op (body : SymTree) (rest : SymTree)
+deriving Repr
+
+/-- `get_symbols(block)`: the symbols of the symref operations of the block itself -/
+def SymTree.direct : SymTree → List Nat
+  | .leaf => []
+  | .sym s r => s :: r.direct
+  | .op _ r => r.direct
+
+/-- the symbols met by `region.walk()` over the operations of the tree, at every depth -/
+def SymTree.all : SymTree → List Nat
+  | .leaf => []
+  | .sym s r => s :: r.all
+  | .op b r => b.all ++ r.all
+
+/-- `get_nested_symbols(block)`: for every operation of the block, for every region, the symbols of
+every operation `region.walk()` yields -/
+def SymTree.nested : SymTree → List Nat
+  | .leaf => []
+  | .sym _ r => r.nested
+  | .op b r => b.all ++ r.nested
+
+/-- NOT what the code does (kept as the counterexample of `XdslProofs.C16Lowering`): only the
+operations directly in the blocks of the nested regions are looked at -/
+def SymTree.nestedShallow : SymTree → List Nat
+  | .leaf => []
+  | .sym _ r => r.nestedShallow
+  | .op b r => b.direct ++ r.nestedShallow
+
+/-- a symref operation on `s` lies exactly `d` region levels below the block -/
+def SymTree.occursAt (s : Nat) : Nat → SymTree → Bool
+  | _, .leaf => false
+  | d, .sym x r => (d == 0 && x == s) || r.occursAt s d
+  | d, .op b r => (match d with
+      | 0 => false
+      | d' + 1 => b.occursAt s d') || r.occursAt s d
+
+/-- the symbols `prune_definitions` / `prune_uses_without_definitions` may forward and erase in this
+block: those of the block itself that no nested region mentions -/
+def SymTree.forwardable (t : SymTree) : List Nat :=
+  t.direct.filter (fun s => !t.nested.contains s)
+
+/-- `prune_definitions`: raises (`none`) when a symbol declared in the block is in
+`get_nested_symbols`, otherwise every declared symbol is forwarded -/
+def SymTree.pruneDecide (declared : List Nat) (t : SymTree) : Option (List Nat) :=
+  if declared.any (fun s => t.nested.contains s) then none else some declared
+
+/-- tokens `s<n>` (symref operation on n), `(` … `)` (an operation with regions) → tree; read from the right -/
+def parseSymTree (toks : List String) : Option SymTree :=
+  let step : Option (SymTree × List SymTree) → String → Option (SymTree × List SymTree) := fun acc tok =>
+    match acc with
+    | none => none
+    | some (cur, stack) =>
+      if tok = ")" then some (.leaf, cur :: stack)
+      else if tok = "(" then
+        match stack with
+        | parent :: st => some (.op cur parent, st)
+        | [] => none
+      else if tok.startsWith "s" then (tok.drop 1).toString.toNat?.map fun n => (.sym n cur, stack)
+      else none
+  match toks.reverse.foldl step (some (.leaf, [])) with
+  | some (t, []) => some t
+  | _ => none
+
+def insertSortedNat (x : Nat) : List Nat → List Nat
+  | [] => [x]
+  | y :: r => if x < y then x :: y :: r else if x = y then y :: r else y :: insertSortedNat x r
+
+def showSymSet (l : List Nat) : String :=
+  ",".intercalate ((l.foldr insertSortedNat []).map toString)
+
 /-! ## line protocol (correspondence with the real passes) -/
 
 def showInts (l : List Int) : String := ",".intercalate (l.map toString)
@@ -281,6 +361,13 @@ def lineStep (_ : Unit) (line : String) : Unit × String :=
       | some vs => "ok " ++ showInts vs
       | none => "undefined")
     | none => ((), "bad-op")
+  | "symtree" :: decl :: toks => match parseSymTree toks, ((decl.splitOn ",").filter (· ≠ "-")).mapM (·.toNat?) with
+    | some t, some declared =>
+      ((), s!"direct {showSymSet t.direct} nested {showSymSet t.nested} forward {showSymSet t.forwardable} "
+            ++ (match t.pruneDecide declared with
+                | some _ => "accept"
+                | none => "raise FrontendProgramException"))
+    | _, _ => ((), "bad-op")
   | ["trip", a, b, c] => match a.toInt?, b.toInt?, c.toInt? with
     | some lb, some ub, some st => ((), toString (tripCount lb ub st))
     | _, _, _ => ((), "bad-op")
